@@ -67,6 +67,13 @@ Fixpoint pipe_unpack (p : list filter) (d : bytes) : option bytes :=
               end
   end.
 
+(* context.go handleCall: the reply's pipe starts as a copy of the request's pipe
+   (c.output.XferPipe().AppendFrom(c.input.XferPipe()), done before the routing/decoding status
+   is looked at, so error replies inherit it too); a handler may then append further filters
+   with CallCtx.AddXferPipe, whose error is ignored (what was appended so far stays). *)
+Definition reply_pipe (reg : registry) (req : list filter) (added : list byte) : list filter :=
+  fst (pipe_append reg req added).
+
 (* ---- integrity filter, parametric in the digest function ---- *)
 Section Md5Filter.
   Variable H : bytes -> bytes.
